@@ -32,14 +32,9 @@ PROP = 'C18'
 # findings of this property that the coordinator may enter into known_findings.json; matched
 # structurally (site + input shape), never by message text alone
 LOCAL_FINDINGS = {
-    'S-C18b': 'BrainModelAxis[idx] with an empty selection ([n:], empty index array, all-false mask) raises '
-              'ValueError (np.vectorize on size 0 in surface_mask) while data[idx] is empty and the other four '
-              'axes return an empty axis; loud',
     'S-C18c': 'map names (Scalar/LabelAxis), metadata keys/values and label names with leading/trailing '
               'whitespace come back stripped from the XML, an empty map name comes back as "None" '
               '(Cifti2Parser.flush_chardata strips character data); silent',
-    'S-C18d': 'LabelAxis with an empty label table for some row: to_xml omits the LabelTable element and '
-              'header.get_axis raises AttributeError after parsing; loud',
 }
 
 SCALE = 4          # affines and dyadic series values are sent to the model as integers * SCALE
@@ -291,8 +286,6 @@ def err_enum(e):
         return 'index'
     if isinstance(e, ValueError):
         m = str(e)
-        if 'vectorize' in m:
-            return 'vectorize0'
         if 'step cannot be zero' in m:
             return 'step0'
         if 'different brain volume' in m or 'Affine and volume shape should be defined' in m:
@@ -352,7 +345,7 @@ VOL_STRUCTS = ['CIFTI_STRUCTURE_THALAMUS_LEFT', 'CIFTI_STRUCTURE_THALAMUS_RIGHT'
 
 def gen_label_table(rng):
     out = {}
-    for _ in range(rng.randrange(1, 5)):
+    for _ in range(rng.choice([0, 1, 1, 2, 3, 4])):
         key = rng.choice([0, 1, 2, 3, 7, -1, 100, 65535])
         col = tuple(rng.choice([0, 1, 0.5, 0.25, rng.random(), 1.0, 0.0]) for _ in range(4))
         out[key] = (rng.choice(['lab', '???', 'L_V1', 'a b', 'é', 'x&y']), col)
@@ -506,6 +499,8 @@ def perturb(rng, a):
             name[i] = str(name[i]) + 'x'
         elif what == 'meta':
             meta[i]['extra'] = 'q'
+        elif what == 'label' and not lab[i]:
+            lab[i][5] = ('added', (0.5, 0.5, 0.5, 1.0))
         elif what == 'label':
             key = rng.choice(list(lab[i]))
             nm, col = lab[i][key]
@@ -679,10 +674,7 @@ def check_index(R, a, ix, tagp=''):
         else:
             chk.refusal('index_error')
     elif err is not None:
-        if k == 'B' and not is_int and len(pos) == 0 and isinstance(err, ValueError) and 'vectorize' in str(err):
-            known(chk, 'S-C18b')
-        else:
-            pred = f'valid index refused: {type(err).__name__}: {str(err)[:80]}'
+        pred = f'valid index refused: {type(err).__name__}: {str(err)[:80]}'
     elif is_int:
         want = elems[pos[0]]
         if k == 'T':
@@ -808,10 +800,6 @@ def stripped_elems(a):
     return [(nm(n), tuple((k, lab.strip(), col) for k, lab, col in l), meta(m)) for n, l, m in lab_elems(a)]
 
 
-def empty_label_table(a):
-    return kd(a) == 'L' and any(len(l) == 0 for l in a.label)
-
-
 def check_header(R, axes, data=None, via='xml', tag='header'):
     """from_axes -> to_xml -> parse -> get_axis (via='xml'), or the whole file (via='bytes'|'file')"""
     from nibabel.cifti2 import Cifti2Header, Cifti2Image
@@ -858,8 +846,10 @@ def check_header(R, axes, data=None, via='xml', tag='header'):
                 and 'does not match shape' in str(e):
             chk.refusal('data_shape_mismatch')
             out['refused'] = 'datashape'
-        elif isinstance(e, AttributeError) and any(empty_label_table(a) for a in axes):
-            known_id = 'S-C18d'
+        elif isinstance(e, IndexError) and any(kd(a) == 'B' and len(a) == 0 for a in axes):
+            # an empty BrainModelAxis has no structures: iter_structures / to_mapping raise (model: Err EIndex)
+            chk.refusal('empty_brainmodel_has_no_maps')
+            out['refused'] = 'index'
         else:
             pred = 'round trip raised ' + out['error']
     if got is not None:
@@ -879,7 +869,7 @@ def check_header(R, axes, data=None, via='xml', tag='header'):
     if pred:
         viol(chk, 'property_violation', case=case, predicate=pred, impl_output=out)
     # correspondence with the model (only inside its quantifier: no fragile strings)
-    if not known_id and not any(fragile_strings(a) or empty_label_table(a) for a in axes):
+    if not known_id and not any(fragile_strings(a) for a in axes):
         toks = ' '.join(axis_tok(a) for a in axes)
         if via == 'xml':
             if got is not None:
@@ -888,7 +878,7 @@ def check_header(R, axes, data=None, via='xml', tag='header'):
                 if out['dims'] != out['dims_built']:
                     exp += ' (dims changed by XML: built %r)' % out['dims_built']
             else:
-                exp = 'err ' + out.get('error', '?')
+                exp = 'err ' + out.get('refused', out.get('error', '?'))
             R.add('h', f'header {len(axes)} {toks}', exp, case)
         else:
             if got is not None:
@@ -1016,8 +1006,15 @@ def check_bm_structure(R, a):
         mim = a.to_mapping(0)
         b = ax.BrainModelAxis.from_index_mapping(mim)
     except Exception as e:          # noqa: BLE001
+        if len(a) == 0 and isinstance(e, IndexError):
+            # an empty axis has no structures (self.name[0]); model: Err EIndex
+            chk.refusal('empty_brainmodel_has_no_maps')
+            R.add('s', f'bm_runs {bm_tok(a)}', 'err index', case)
+            R.add('m', f'bm_map {bm_tok(a)}', 'err index', case)
+            R.add('k', f'bm_make {bm_tok(a)}', 'ok ' + bm_full(a), case)
+            return
         viol(chk, 'property_violation', case=case, impl_output=f'{type(e).__name__}: {str(e)[:200]}',
-                      predicate='iter_structures / to_mapping / from_index_mapping raised on a valid non-empty axis')
+             predicate='iter_structures / to_mapping / from_index_mapping raised on a valid non-empty axis')
         return
     runs = ';'.join(f'{struct_id(nm)}:{sl.start}:{o2s(sl.stop)}' for nm, sl, _ in structs)
     subs = ';'.join(f'{struct_id(nm)}:{sl.start}:{len(b2)}' for nm, sl, b2 in structs)
@@ -1069,7 +1066,7 @@ def run(chk: Check):
                 '(C) iter_structures / to_mapping / from_index_mapping of every brain-model axis; (D) a + b for '
                 'compatible and incompatible pairs; (I) constructor refusals, one structure as surface and as voxels; (H) == on perturbed copies; (E) 1-3 axes (with repeated, equal and near-equal axes) -> from_axes -> to_xml '
                 '-> Cifti2Parser -> get_axis; (F) Cifti2Image with random data (5 dtypes) through '
-                'to_bytes/from_bytes and .nii files; (J) file histories: img1 saved, then a NEW image with other axes/data and nifti_header= of the saved or re-loaded img1 (or img1 saved again unchanged), with other NIfTI extensions present, saved twice and loaded: axes/data of the image saved, exactly one CIFTI-2 extension; (G) probes of S-C18b/c/d. Non-trivial: the selection is not '
+                'to_bytes/from_bytes and .nii files; (J) file histories: img1 saved, then a NEW image with other axes/data and nifti_header= of the saved or re-loaded img1 (or img1 saved again unchanged), with other NIfTI extensions present, saved twice and loaded: axes/data of the image saved, exactly one CIFTI-2 extension; (K) empty axes of every kind: indexing, a+b, ==, header/file (an empty brain-model axis has no maps: refused); (G) probes of S-C18c. Non-trivial: the selection is not '
                 'the whole axis and not an error; distinct by (axis, index) / (axes tuple)')
     chk.assumptions = ['expat (Cifti2Parser), ElementTree (to_xml) and the NIfTI-2 container are exercised, not modelled: '
                        'the model takes the XML and the container as identity oracles (C18_file_roundtrip premises)',
@@ -1215,6 +1212,28 @@ def run(chk: Check):
         check_add(R, a, b)
         check_add(R, b, a)
 
+    # ---------------- (K) empty axes (an empty selection of every kind, also of brain models since 82b9e2d7)
+    for k in 'BPSLT':
+        for a in axes_pool[k][:chk.n(12, 60)]:
+            n = len(a)
+            try:
+                e = a[n:]
+                e2 = rng.choice(axes_pool[k])[slice(0, 0)]
+            except Exception:       # noqa: BLE001  (reported by check_index above)
+                continue
+            for ix in [slice(None), slice(None, None, -1), slice(1, 5, 2), 0, -1] + \
+                      ([np.array([], dtype=int), np.zeros(0, dtype=bool), np.array([0]), np.ones(1, dtype=bool)] if k != 'T' else []):
+                check_index(R, e, ix)
+            for x, y in ((e, a), (a, e), (e, e2), (e, e)):
+                check_add(R, x, y)
+            check_eq(R, e, e2)
+            check_eq(R, e, a)
+            if k == 'B':
+                check_bm_structure(R, e)
+            other = ax.ScalarAxis(['x', 'y'])
+            check_header(R, [e, other], via='xml', tag='empty')
+            check_header(R, [other, e], data=np.zeros((2, 0), dtype=np.float32), via='bytes', tag='empty')
+
     # ---------------- (H) equality
     for k in 'BPSLT':
         for a in axes_pool[k]:
@@ -1320,9 +1339,7 @@ def run(chk: Check):
     chk.extra['unproved_statements'] = [
         'XML layer (Cifti2*._to_xml_element, Cifti2Parser/expat) and NIfTI-2 container are premises (Section '
         'hypotheses) of C18_file_roundtrip, not proved; tied by correspondence streams E/F; the XML premise is '
-        'false for empty / whitespace-edged map names, metadata, label names (S-C18c) and empty label tables (S-C18d)',
-        'C18_index_describes_rows for BrainModelAxis holds only for non-empty selections (_partial); the empty '
-        'selection is refused: C18_index_describes_rows_brainmodel_refuted (S-C18b)',
+        'false for empty / whitespace-edged map names, metadata, label names (S-C18c)',
         'to_mapping/from_index_mapping of Parcels/Scalar/Label/Series axes are modelled as the identity on interned '
         'element values (per-element re-packing), tied by correspondence stream E',
         'float arithmetic of SeriesAxis (start + k*step in binary64) is idealised to Z; generator uses multiples of 1/4',
@@ -1353,7 +1370,7 @@ def run(chk: Check):
         t = f'(mkBm {nm} {vx} {vt} ({vol}) {nv})'
         pairs.append((f'match bm_to_mapping {t} with Ok m => match bm_from_mapping m with Ok b => bm_eqb b {t} && bm_eqb {t} b | Err _ => false end | Err _ => false end',
                       'bm roundtrip'))
-        pairs.append((f'match bm_getitem {t} (ISlice (mkSl (Some 9) None None)) with Err EVectorize0 => true | _ => false end', 'S-C18b model'))
+        pairs.append((f'match bm_getitem {t} (ISlice (mkSl (Some 9) None None)) with Ok b => (bm_len b =? 0) && is_none (b_vol b) | _ => false end', 'empty selection'))
     imports = ('From Coq Require Import ZArith List Bool. Import ListNotations. Open Scope Z_scope.\n'
                'From NV Require Import Base.PySlice C18.Model.\n')
     ncase, bad = vm_crosscheck(PROP, imports, pairs)
